@@ -633,6 +633,18 @@ class Program(object):
                     out.append((f, c))
         return out
 
+    def callers_of_func(self, target: Func) -> List[Tuple[Func, ast.Call]]:
+        """Call sites that may resolve to *target* (CHA)."""
+        out = []
+        for f in self.all_funcs():
+            for c in self.calls_in(f):
+                if call_name(c) != target.name:
+                    continue
+                targets, _ = self.resolve_call(f, c)
+                if any(t is target for t in targets):
+                    out.append((f, c))
+        return out
+
     # -- constant tables -----------------------------------------------------
 
     def const_collection(self, module: Module, node, owner: Class = None,
